@@ -164,7 +164,9 @@ ConstrLists(S) == {<<>>} \cup {<<c>> : c \in S} \cup {<<c, d>> : c \in S, d \in 
 (* the discrete scenario space of the numerical part of C07 (Part =          *)
 (* "scenarios"): which likelihood objects the harness differentiates         *)
 (* numerically.  Applicability conditions are written as such.               *)
-ScnKinds == {"default", "extended", "cached_int", "cached_amp", "simple", "cfit", "cfit_cached", "cfit_ext", "simple_cfit"}
+ScnKinds == {"default", "extended", "cached_int", "cached_amp", "simple", "cfit", "cfit_cached", "cfit_ext", "simple_cfit",
+             \* the remaining likelihood models tf_pwa/model/custom.py registers (the harness compares with the registry)
+             "simple_clip", "simple_chi2", "constr_frac", "cfit_constr_frac"}
 CachedKinds == {"cached_int", "cached_amp", "cfit_cached"}
 Applicable(sc) ==
     \* cached integrals / amplitudes are valid only while no line-shape parameter floats (opt_int.py:133)
